@@ -30,4 +30,18 @@ package objfile
 //gvc:  opt coarse
 //gvc:  opt frame args
 //gvc:  ensures complete: result == nil && !old(w.closed) ==> w.pending == 0
+//gvc:  sink Put requires private: false
+//gvc:end
+
+// prepareForWrite: the digest that will name the object is created for this
+// Writer (C01: the id is the hash of this object's header and content). Hash()
+// is asked for after Close by the loose-object writer of the storage, so the
+// digest state must stay the Writer's own for its whole life: it comes from
+// NewHasher here, and Close hands it to no pool (call site obligation on Put).
+//gvc:func (*Writer).prepareForWrite
+//gvc:  props C01
+//gvc:  theory int
+//gvc:  opt coarse
+//gvc:  opt frame args
+//gvc:  ensures own: calls("NewHasher") == 1
 //gvc:end
